@@ -161,9 +161,7 @@ func rawCase(w *bufio.Writer, r *prng.R, id string) {
 	for _, s := range subs {
 		s.cancelNow(lower, upper)
 	}
-	for _, s := range subs {
-		s.wait(2 * time.Second)
-	}
+	waitAll(subs, 1500*time.Millisecond)
 	fmt.Fprintf(w, "RAW\t%s\t%s\t%s\n", id, strings.Join(prog, " "), joinSubs(subs, total))
 }
 
@@ -214,7 +212,22 @@ func storm(w *bufio.Writer, d time.Duration, maxOut int) {
 					}
 				}
 				cancel()
-				for range ch {
+				dl := time.After(time.Second)
+			D:
+				for {
+					select {
+					case _, ok := <-ch:
+						if !ok {
+							break D
+						}
+					case <-dl:
+						other.Add(1)
+						omu.Lock()
+						examples = append(examples, "OTHER:not-closed-after-cancel")
+						omu.Unlock()
+						stop.Store(true)
+						break D
+					}
 				}
 				total.Add(1)
 				if len(got) < 3 {
